@@ -25,8 +25,8 @@
 (* listed in known-findings.txt).  Their use is reported (RELAX-USED).         *)
 (*   VERIF_RELAX_HASH_INT_DNUM  integer-valued decimal beyond the int16 range  *)
 (*        hashes differently from the equal SuInt64 (F14)                      *)
-(*   VERIF_RELAX_INT17  integers of more than 16 digits against decimals:      *)
-(*        comparison goes through a rounding conversion                        *)
+(*   VERIF_RELAX_INT17  integers >= 10^16 against decimals: comparison goes     *)
+(*        through a conversion that rounds to 16 digits                        *)
 (*   VERIF_RELAX_OBJ_HASH_ORDER  hash of an object with 2..4 named members     *)
 (*        depends on their insertion order                                     *)
 EXTENDS TraceBase, Values
@@ -91,7 +91,9 @@ BeyondInt16(v) ==
        \/ /\ v.nx = 5
           /\ LET d == [i \in 1..5 |-> IF i <= Len(v.nd) THEN v.nd[i] ELSE 0]
              IN LexCmp(d, IF v.ns = 1 THEN <<3, 2, 7, 6, 7>> ELSE <<3, 2, 7, 6, 8>>) > 0
-Int17(v) == IsIntV(v) /\ Len(v.nd) > 16
+\* integers of 10^16 and more (conversion to a decimal rounds to 16 digits; also the
+\* int64 boundary 9223372036854775000 that Dnum.ToInt64 rejects)
+Int17(v) == IsIntV(v) /\ v.nx > 16
 
 RECURSIVE DeepB16(_), DeepI17(_)
 \* does v (or any member, deeply) satisfy BeyondInt16 / Int17
